@@ -326,6 +326,8 @@ func runJob3(j job) string {
 		return boxAgree(j.data)
 	case "L3":
 		return fileBoth(j.data)
+	case "T3":
+		return leafBoth(j.data)
 	case "E3":
 		var r string
 		mode := mp4.EncFragFileMode(j.cfg[3] - '0')
@@ -395,9 +397,15 @@ func cmdCorr3(seed uint64, n int, exh int) {
 		jobs = append(jobs, job{kind: "L3", cfg: "-", data: d})
 		metas = append(metas, "L\t"+hx.Hex(d))
 	}
+	for _, d := range genT3Inputs(r, n) {
+		jobs = append(jobs, job{kind: "T3", cfg: "-", data: d})
+		metas = append(metas, "T\t"+hx.Hex(d))
+	}
 	res := runJobs(jobs, nprocs())
 	for i, m := range metas {
-		if m[0] == 'B' {
+		if m[0] == 'T' {
+			fmt.Fprintf(out, "T\tt%d\t%s\t%s\n", i, m[2:], res[i])
+		} else if m[0] == 'B' {
 			fmt.Fprintf(out, "B\tb%d\t%s\t%s\n", i, m[2:], projectB(res[i]))
 		} else if m[0] == 'L' {
 			fmt.Fprintf(out, "L\tl%d\t%s\t%s\n", i, m[2:], res[i])
